@@ -22,10 +22,21 @@ class IdRules:
         self.idf = sp[0]['name']
         arr = [g for g in fx.globals.values() if g.get('extent') and ('atomic<bool>' in g['type'].get('ct', '') or 'atomic_flag' in g['type'].get('ct', ''))
                and g['file'].endswith('id_manager.cpp')]
+        self.bitmap = None         # bits per word when the reservation states are packed into atomic integer words
+        if not arr:
+            import re as _re
+            words = [g for g in fx.globals.values() if g.get('extent') and g['file'].endswith('id_manager.cpp') and
+                     _re.search(r'atomic<unsigned (long|int|long long|short|char)>', g['type'].get('ct', ''))]
+            cap = fx.tu_constants('id_manager.cpp').get('dbgroup::thread::kMaxThreadNum')
+            if len(words) == 1 and cap:
+                w = {'char': 8, 'short': 16, 'int': 32, 'long': 64, 'long long': 64}[_re.search(r'atomic<unsigned (long long|long|int|short|char)>', words[0]['type']['ct']).group(1)]
+                if int(words[0]['extent']) * w >= cap:
+                    self.bitmap, arr = w, words
+                    self.capacity = int(cap)
         if len(arr) != 1:
-            raise AnalysisBroken('id_manager.cpp: reservation array (atomic<bool>[N] / atomic_flag[N]) not found uniquely')
+            raise AnalysisBroken('id_manager.cpp: reservation array (atomic<bool>[N] / atomic_flag[N] / bitmap of atomic words) not found uniquely')
         self.arr = arr[0]
-        self.extent = int(self.arr['extent'])
+        self.extent = int(self.arr['extent']) if not self.bitmap else self.capacity
         self.dtor = self.one([f for f in fx.functions.values() if f.get('record') == self.hb_rec['name'] and f['kind'] == 'dtor'], '~HeartBeater')
         self.fns = [f for f in fx.functions.values() if (f.get('record') or '').startswith(NS + 'IDManager') and f['tu'] == 'id_manager.cpp']
         self.getter = fx.fn(NS + 'IDManager::GetHeartBeater', 'id_manager.cpp')
@@ -42,6 +53,50 @@ class IdRules:
 
     def is_flag(self, obj):
         return isinstance(obj, tuple) and obj[0] == 'index' and obj[1] == ('global', self.arr['q'])
+
+    # ---- bitmap representation: flag i is bit (i % W) of word (i / W)
+    @staticmethod
+    def unext(v):
+        while isinstance(v, tuple) and v and v[0] in ('ext', 'trunc') and len(v) > 1:
+            v = v[1]
+        return v
+
+    def flag_id(self, idx):
+        """the ID a subscript of the reservation array stands for"""
+        if not self.bitmap:
+            return idx
+        w = self.bitmap
+        v = self.unext(idx)
+        if isinstance(v, tuple) and v and v[0] == 'op' and is_const(v[3]):
+            if (v[1] == '/' and v[3][1] == w) or (v[1] == '>>' and (1 << v[3][1]) == w):
+                return self.unext(v[2])
+        return None
+
+    def word_ok(self, idx, i):
+        """idx is the word that holds the bit of ID i"""
+        if not self.bitmap:
+            return idx == i
+        a, b = self.unext(idx), self.unext(i)
+        if is_const(a) and is_const(b):
+            return a[1] == b[1] // self.bitmap
+        return self.flag_id(idx) == b
+
+    def is_mask(self, v, i):
+        """v is the full-width single-bit mask of ID i: 1 << (i % W) computed in the word's width"""
+        w = self.bitmap
+        if is_const(v) and is_const(self.unext(i)):
+            return v[2] == w and v[1] == 1 << (self.unext(i)[1] % w)
+        v = self.unext(v) if not (isinstance(v, tuple) and v and v[0] == 'ext') else v
+        if isinstance(v, tuple) and v and v[0] == 'ext':
+            return False        # a mask computed in a narrower type and widened afterwards
+        if not (isinstance(v, tuple) and v and v[0] == 'op' and v[1] == '<<' and v[4] == w and is_const(v[2]) and v[2][1] == 1):
+            return False
+        sh = self.unext(v[3])
+        if not (isinstance(sh, tuple) and sh and sh[0] == 'op' and is_const(sh[3])):
+            return False
+        if not ((sh[1] == '%' and sh[3][1] == w) or (sh[1] == '&' and sh[3][1] == w - 1)):
+            return False
+        return self.unext(sh[2]) == self.unext(i)
 
     def flag_events(self, p):
         return [e for e in p.events if e['kind'] == 'atomic' and self.is_flag(e['obj'])]
@@ -103,7 +158,17 @@ class IdRules:
                 elif e['kind'] == 'member_dtor' and e.get('member') == self.idf:
                     expire = expire or e
             frees = [e for e in self.flag_events(p) if is_write(e)]
-            if len(frees) != 1 or frees[0]['op'] != 'store' or not (is_const(frees[0]['value']) and frees[0]['value'][1] == 0):
+            if self.bitmap:
+                fid = self.flag_id(frees[0]['obj'][2]) if frees else None
+                v = frees[0].get('value') if frees else None
+                okf = len(frees) == 1 and frees[0]['op'] == 'fetch_and' and fid is not None and isinstance(v, tuple) and v and v[0] == 'bnot' and \
+                    v[2] == self.bitmap and self.is_mask(v[1], fid)
+                if not okf:
+                    sink.bad('C14.FREE', '~HeartBeater clears its reservation bit exactly once', loc,
+                             'a bit of a shared word is cleared by one fetch_and with the full-width complement of the own bit; found %s' %
+                             [(e['op'], show(e.get('value'))[:60]) for e in frees])
+                    continue
+            elif len(frees) != 1 or frees[0]['op'] != 'store' or not (is_const(frees[0]['value']) and frees[0]['value'][1] == 0):
                 sink.bad('C14.FREE', '~HeartBeater clears its reservation flag exactly once', loc,
                          'found %s' % [(e['op'], show(e.get('value'))) for e in frees])
                 continue
@@ -197,7 +262,15 @@ class IdRules:
             fe = self.flag_events(p)
             loc = '%s:%s' % (f['file'], p.ret_line)
             for e in fe:
-                idx = e['obj'][2]
+                idx = self.flag_id(e['obj'][2])
+                if idx is None and self.bitmap and is_const(self.unext(e['obj'][2])):
+                    wi = self.unext(e['obj'][2])[1]
+                    sink.emit('C05.RANGE', 'ok' if wi < int(self.arr['extent']) else 'violated', 'GetHeartBeater word subscript %d' % wi, '%s:%s' % (f['file'], e['line']),
+                              'constant word index within the %s words of %s' % (self.arr['extent'], self.arr['name']))
+                    continue
+                if idx is None:
+                    sink.unsup('C05.RANGE', 'GetHeartBeater subscript %s' % self.norm(e['obj'][2]), '%s:%s' % (f['file'], e['line']), 'word index is not ID / bits-per-word')
+                    continue
                 sink.emit('C05.RANGE', 'ok' if self.in_range(idx, p) else 'violated', 'GetHeartBeater subscript %s' % self.norm(idx), '%s:%s' % (f['file'], e['line']),
                           'index %s < %d (extent of %s) on this path' % (show(idx)[:80], self.extent, self.arr['name']) if self.in_range(idx, p) else
                           'index %s is not bounded by the extent %d of %s on this path' % (show(idx)[:120], self.extent, self.arr['name']))
@@ -215,9 +288,14 @@ class IdRules:
             st = sets[0]
             before = [e for e in fe if e['seq'] < st['seq'] and is_write(e)]
             last = before[-1] if before else None
-            good = last is not None and last['op'] in ('exchange', 'cas', 'fetch_or') and last['obj'][2] == st['args'][0]
+            good = last is not None and last['op'] in ('exchange', 'cas', 'fetch_or') and self.word_ok(last['obj'][2], st['args'][0])
             why = ''
-            if good:
+            if good and self.bitmap:
+                # the bit of that ID is set by a fetch_or of its full-width mask and was found clear in the returned word
+                t = cond_truth(p.conds, ('op', '&', last['result'], last['value'], self.bitmap)) if last['op'] == 'fetch_or' else None
+                good = last['op'] == 'fetch_or' and self.is_mask(last['value'], self.unext(st['args'][0])) and t is False
+                why = 'fetch_or of the bit of that ID; the bit was clear in the old word'
+            elif good:
                 if last['op'] == 'cas':
                     good = last['success'] and is_const(last['expected']) and last['expected'][1] == 0 and is_const(last['desired']) and last['desired'][1] == 1
                     why = 'CAS false->true succeeded'
